@@ -152,8 +152,8 @@ class Normalizer:
                     return ('ret', self.ite(c, rr[1], r2[1]), self.ite(c, rr[2], r2[2]))
                 e1, e2 = r1[1], r2[1]
                 for k in set(e1) | set(e2):
-                    v1 = e1.get(k, ('undef', k))
-                    v2 = e2.get(k, ('undef', k))
+                    v1 = e1.get(k, ('undef', '<local>'))
+                    v2 = e2.get(k, ('undef', '<local>'))
                     env[k] = v1 if v1 == v2 else self.ite(c, v1, v2)
                 continue
             if isinstance(st, (ast.For, ast.While)):
@@ -290,7 +290,7 @@ class Normalizer:
                     raise Unsupported('while-else')
                 header = None
             carried = list(assigned) + ['$eff']
-            inits = {v: env.get(v, ('undef', v)) for v in carried}
+            inits = {v: env.get(v, ('undef', '<local>')) for v in carried}
             for v in carried:
                 self.loop_shapes[(d, carried.index(v))] = self.shape(inits[v]) if v != '$eff' else None
             benv = dict(env)
@@ -303,7 +303,7 @@ class Normalizer:
             r = self.block(st.body, benv)
             if r[0] == 'ret':
                 raise Unsupported('return inside loop')
-            bodies = {v: r[1].get(v, ('undef', v)) for v in carried}
+            bodies = {v: r[1].get(v, ('undef', '<local>')) for v in carried}
             raw = ('rawloop', d, header, tuple((inits[v], bodies[v]) for v in carried))
             for k, v in enumerate(carried):
                 env[v] = ('lout', raw, k)
